@@ -28,15 +28,83 @@ pub fn main(args: &Args) {
     let shards = args.num("shards", 1).max(1);
     let mut id = 0u64;
     let mut n = 0u64;
+    let xml = args.has("xml");
     let mut emit = |c: Value, out: &mut Out| {
         n += 1;
         if n % shards != shard {
+            return;
+        }
+        if xml {
+            // xml5ever shares the character-reference rules: the reference text T (taken back out of the HTML case) goes into
+            // <r>T</r> and <r a="T"/> / <r a='T'/>; text that would end the context is left out
+            let full = from_cps(&c["chunks"][0]);
+            let t = match (full.find("b=\""), full.find("b='"), full.find("b=")) {
+                (Some(i), _, _) => full[i + 3..].trim_end_matches("\">").to_string(),
+                (_, Some(i), _) => full[i + 3..].trim_end_matches("'>").to_string(),
+                (_, _, Some(i)) => full[i + 2..].trim_end_matches(" c>").trim_end_matches('>').to_string(),
+                _ => full.clone(),
+            };
+            if t.contains('<') || t.contains('"') || t.contains('\'') || t.contains('\r') || t.contains('>') || t.contains('\0') {
+                return;
+            }
+            for (attr, doc) in [(false, format!("<r>{}</r>", t)), (true, format!("<r a=\"{}\"/>", t)), (true, format!("<r a='{}'/>", t))] {
+                id += 1;
+                let xo = crate::xmlh::run_xml_opts(&[doc], false, false, false, false, false);
+                let mut got = String::new();
+                for e in &xo.events {
+                    if e["ev"] == "token" {
+                        if !attr && e["tok"]["k"] == "chars" {
+                            got.push_str(&from_cps(&e["tok"]["s"]));
+                        }
+                        if attr && (e["tok"]["k"] == "empty" || e["tok"]["k"] == "start") {
+                            if let Some(a) = e["tok"]["attrs"].as_array().and_then(|a| a.first()) {
+                                got.push_str(&from_cps(&a["v"]));
+                            }
+                        }
+                    }
+                }
+                out.line(&json!({"ev":"xcr","case":id,"x":cps(&t),"attr":attr,"got":cps(&got),
+                                 "panic": match &xo.panic { Some(m) => json!([cps(m)]), None => json!([]) }}));
+            }
             return;
         }
         id += 1;
         let rr = run_tok(&c);
         out.line(&case_line(&c, id, &rr, &fields));
     };
+    if xml && args.has("replay") {
+        // recorded xml cases: {"x": text, "attr": bool}; both quoting styles are re-run for attributes
+        let mut id = 0u64;
+        for c in read_cases() {
+            if c["ev"] != "xcr" {
+                continue;
+            }
+            let t = from_cps(&c["x"]);
+            let attr = c["attr"].as_bool().unwrap_or(false);
+            let docs = if attr { vec![format!("<r a=\"{}\"/>", t), format!("<r a='{}'/>", t)] } else { vec![format!("<r>{}</r>", t)] };
+            for doc in docs {
+                id += 1;
+                let xo = crate::xmlh::run_xml_opts(&[doc], false, false, false, false, false);
+                let mut got = String::new();
+                for e in &xo.events {
+                    if e["ev"] == "token" {
+                        if !attr && e["tok"]["k"] == "chars" {
+                            got.push_str(&from_cps(&e["tok"]["s"]));
+                        }
+                        if attr && (e["tok"]["k"] == "empty" || e["tok"]["k"] == "start") {
+                            if let Some(a) = e["tok"]["attrs"].as_array().and_then(|a| a.first()) {
+                                got.push_str(&from_cps(&a["v"]));
+                            }
+                        }
+                    }
+                }
+                out.line(&json!({"ev":"xcr","case":id,"x":cps(&t),"attr":attr,"got":cps(&got),
+                                 "panic": match &xo.panic { Some(m) => json!([cps(m)]), None => json!([]) }}));
+            }
+        }
+        out.flush();
+        return;
+    }
     match args.get("part").unwrap_or("named") {
         "named" => {
             let quick = args.has("quick");
